@@ -26,6 +26,9 @@ fn junk_menu(t: &Task, sibling_delta: u16) -> Vec<JunkKind> {
     } else {
         v.push(JunkKind::ForeignTarget);
         v.push(JunkKind::ForeignPort);
+        if t.cell.ports == crate::drive::Ports::FixedBoth {
+            v.push(JunkKind::ForeignPortDest);
+        }
     }
     v
 }
@@ -144,6 +147,16 @@ pub fn run(args: &Args) -> i32 {
                 p.packet_size = if cell.v6 { 96 } else { 84 };
                 tasks.push((Task { cell, topo: "silent-target", params: p, bound: 1 }, 1));
             }
+        }
+    }
+    // the other port directions (pinned destination, both pinned): foreign-port responses
+    for cell in drive::all_cells().into_iter().filter(|c| c.privileged && !c.ext && matches!(c.ports, Ports::FixedDest | Ports::FixedBoth)) {
+        for topo in if tier == Tier::Thorough { vec!["L2", "L3", "silent-mid"] } else { vec!["L2"] } {
+            let mut p = TraceParams::default();
+            p.rounds = 3;
+            p.trace_id = 0x1234;
+            p.packet_size = if cell.v6 { 96 } else { 84 };
+            tasks.push((Task { cell, topo, params: p, bound }, 1));
         }
     }
     // a long first round (254 probes, target silent), then shorter rounds (target at distance 200
@@ -268,7 +281,7 @@ pub fn run(args: &Args) -> i32 {
     rep.set("horizon_hits", json!(a.stats.horizon_hits));
     rep.set("determinism_replays", json!(a.replays));
     rep.observe("junk_deliveries_by_kind", json!(a.by_kind));
-    rep.set("rule", json!(format!("14 base cells x topologies {{L2,L3,silent-mid}} x CLI-assigned identifier pairs (pid+i for pid in {{0,1,2,65533,65534}}), 3 rounds: all executions with <= {bound} deviations where a deviation is a delay, a loss or the injection of one junk datagram (duplicate of a delivered response; late response to a previous-round probe; sibling tracer's Time Exceeded / Echo Reply; other target; other fixed port; never-sent sequences: next unissued, round_start-1, +300, +511, +512); plus 254-probe rounds across sequence wrap-around with <= 1 deviation. Oracle: re-run with every junk datagram replaced by an ICMP Echo Request (discarded at the lowest level) - published rounds, timestamps and final snapshot must be identical. distinct_nontrivial = executions containing >= 1 junk delivery (each compared with its inert twin)")));
+    rep.set("rule", json!(format!("14 base cells x topologies {{L2,L3,silent-mid}} (+ every privileged cell with a pinned destination port or both ports pinned, incl. a foreign response differing in the second pinned port only) x CLI-assigned identifier pairs (pid+i for pid in {{0,1,2,65533,65534}}), 3 rounds: all executions with <= {bound} deviations where a deviation is a delay, a loss or the injection of one junk datagram (duplicate of a delivered response; late response to a previous-round probe; sibling tracer's Time Exceeded / Echo Reply; other target; other fixed port; never-sent sequences: next unissued, round_start-1, +300, +511, +512); plus 254-probe rounds across sequence wrap-around with <= 1 deviation. Oracle: re-run with every junk datagram replaced by an ICMP Echo Request (discarded at the lowest level) - published rounds, timestamps and final snapshot must be identical. distinct_nontrivial = executions containing >= 1 junk delivery (each compared with its inert twin)")));
     for s in a.samples {
         rep.sample(s);
     }
